@@ -242,7 +242,7 @@ namespace bxdecay0 {
       fin >> evId >> std::ws >> evTime >> std::ws >> decayGenName >> std::ws;
       if (_config_.zero_event_time) evTime = 0.0;
       fin >> nbParticles >> std::ws;
-      if (!fin) {
+      if (!fin or nbParticles < 0) {
         throw std::runtime_error("bxdecay0::event_reader::load_next_event: Invalid/corrupted event format!");
       }
       evt_.set_time(evTime);
@@ -254,6 +254,10 @@ namespace bxdecay0 {
         fin >> partCode >> std::ws >> partTime >> std::ws >> px >> std::ws >> py >> std::ws >> pz >> std::ws;
         if (!fin) {
           throw std::runtime_error("bxdecay0::event_reader::load_next_event: Invalid/corrupted particle format!");
+        }
+        if (partCode != (int) GAMMA and partCode != (int) POSITRON and partCode != (int) ELECTRON
+            and partCode != (int) NEUTRON and partCode != (int) PROTON and partCode != (int) ALPHA) {
+          throw std::runtime_error("bxdecay0::event_reader::load_next_event: Invalid particle code [" + std::to_string(partCode) + "]!");
         }
         particle part;
         part.set_code(static_cast<particle_code>(partCode));
